@@ -58,3 +58,80 @@ fn start_contract<const L: usize>()
 #[kani::proof] #[kani::unwind(6)] fn k_tracker_event_start_l4() { start_contract::<4>(); }
 //# id=K.tracker.event.start.L5 props=C03,C12 strength=complete shape="parked list L=5, all contents" tier=thorough fns=EventAccessTracker::start
 #[kani::proof] #[kani::unwind(7)] fn k_tracker_event_start_l5() { start_contract::<5>(); }
+
+// ---------------------------------------------------------------------------------------------------------------
+// K.reader.event: BroadcastEvent<T>::try_read / EntityEvent<T>::{try_read,get_entity} (C03, C04).
+// Contract: a reader returns Ok(own payload) iff the tracker is reacting AND the tracker's data entity carries
+// THIS reader's kind (broadcast vs entity event) and THIS payload type; in every other case it returns Err:
+// other kind, other type, not reacting (manual run / outside the run), data entity gone.
+// Shape: loop-free; KIND of the data entity's component is a harness parameter (5 cases), flag / payload / target /
+// which entity the tracker points at are symbolic.  T in {u32, u16}.
+// ---------------------------------------------------------------------------------------------------------------
+fn reader_contract<const KIND: u8, const AT_D: bool>()
+{
+    let mut world = World::new();
+    let payload32: u32 = kani::any();
+    let payload16: u16 = kani::any();
+    let target = any_entity();
+    let d = match KIND {
+        0 => world.spawn(BroadcastEventData::new(payload32)).id(),
+        1 => world.spawn(BroadcastEventData::new(payload16)).id(),
+        2 => world.spawn(EntityEventData::new(target, payload32)).id(),
+        3 => world.spawn(EntityEventData::new(target, payload16)).id(),
+        _ => world.spawn_empty().id(),
+    };
+    let other = world.spawn_empty().id();
+    let reacting: bool = kani::any();
+    let points_at_d: bool = AT_D;   // structural case (which entity the tracker names) is enumerated, not symbolic
+    let tracker = EventAccessTracker{ currently_reacting: reacting, data_entity: if points_at_d { d } else { other }, prepared: Vec::new() };
+    let live = reacting && points_at_d;
+    vlog!("REPLAY-INPUT kind={} reacting={} tracker_points_at_data_entity={} payload32={} payload16={}", KIND, reacting, points_at_d, payload32, payload16);
+
+    let w: *mut World = &mut world;
+    let b32 = BroadcastEvent::<u32>{ tracker: Res::verif_new(&tracker), data: Query::verif_new(unsafe { &mut *w }) };
+    let b16 = BroadcastEvent::<u16>{ tracker: Res::verif_new(&tracker), data: Query::verif_new(unsafe { &mut *w }) };
+    let e32 = EntityEvent::<u32>{ tracker: Res::verif_new(&tracker), data: Query::verif_new(unsafe { &mut *w }) };
+    let e16 = EntityEvent::<u16>{ tracker: Res::verif_new(&tracker), data: Query::verif_new(unsafe { &mut *w }) };
+
+    match b32.try_read() {
+        Ok(v) => { assert!(live && KIND == 0, "BroadcastEvent::try_read: Ok only while reacting to a broadcast of this type"); assert!(*v == payload32, "BroadcastEvent::try_read: returns the causing event's own payload"); }
+        Err(_) => assert!(!(live && KIND == 0), "BroadcastEvent::try_read: the run caused by a broadcast of this type can read it"),
+    }
+    match b16.try_read() {
+        Ok(v) => { assert!(live && KIND == 1, "BroadcastEvent::try_read: Ok only while reacting to a broadcast of this type"); assert!(*v == payload16, "BroadcastEvent::try_read: returns the causing event's own payload"); }
+        Err(_) => assert!(!(live && KIND == 1), "BroadcastEvent::try_read: the run caused by a broadcast of this type can read it"),
+    }
+    match e32.try_read() {
+        Ok((t, v)) => { assert!(live && KIND == 2, "EntityEvent::try_read: Ok only while reacting to an entity event of this type"); assert!(t == target && *v == payload32, "EntityEvent::try_read: returns the causing event's own target and payload"); }
+        Err(_) => assert!(!(live && KIND == 2), "EntityEvent::try_read: the run caused by an entity event of this type can read it"),
+    }
+    match e16.try_read() {
+        Ok((t, v)) => { assert!(live && KIND == 3, "EntityEvent::try_read: Ok only while reacting to an entity event of this type"); assert!(t == target && *v == payload16, "EntityEvent::try_read: returns the causing event's own target and payload"); }
+        Err(_) => assert!(!(live && KIND == 3), "EntityEvent::try_read: the run caused by an entity event of this type can read it"),
+    }
+    assert!(e32.get_entity().ok() == (if live && KIND == 2 { Some(target) } else { None }), "EntityEvent::get_entity: target of the causing event, else nothing");
+    assert!(b32.is_empty() == !(live && KIND == 0), "BroadcastEvent::is_empty: negation of readability");
+    assert!(e16.is_empty() == !(live && KIND == 3), "EntityEvent::is_empty: negation of readability");
+    core::mem::forget(world);
+}
+
+//# id=K.reader.event.broadcast_u32.at props=C03,C04 strength=complete shape="loop-free; data entity holds broadcast_u32; tracker names the data entity; flag/payload/target symbolic" tier=quick fns=BroadcastEvent::try_read,BroadcastEvent::is_empty,EntityEvent::try_read,EntityEvent::get_entity,EntityEvent::is_empty
+#[kani::proof] #[kani::unwind(6)] fn k_reader_event_kind0_at() { reader_contract::<0, true>(); }
+//# id=K.reader.event.broadcast_u32.away props=C03,C04 strength=complete shape="loop-free; data entity holds broadcast_u32; tracker names another entity; flag/payload/target symbolic" tier=quick fns=BroadcastEvent::try_read,BroadcastEvent::is_empty,EntityEvent::try_read,EntityEvent::get_entity,EntityEvent::is_empty
+#[kani::proof] #[kani::unwind(6)] fn k_reader_event_kind0_away() { reader_contract::<0, false>(); }
+//# id=K.reader.event.broadcast_u16.at props=C03,C04 strength=complete shape="loop-free; data entity holds broadcast_u16; tracker names the data entity; flag/payload/target symbolic" tier=quick fns=BroadcastEvent::try_read,BroadcastEvent::is_empty,EntityEvent::try_read,EntityEvent::get_entity,EntityEvent::is_empty
+#[kani::proof] #[kani::unwind(6)] fn k_reader_event_kind1_at() { reader_contract::<1, true>(); }
+//# id=K.reader.event.broadcast_u16.away props=C03,C04 strength=complete shape="loop-free; data entity holds broadcast_u16; tracker names another entity; flag/payload/target symbolic" tier=quick fns=BroadcastEvent::try_read,BroadcastEvent::is_empty,EntityEvent::try_read,EntityEvent::get_entity,EntityEvent::is_empty
+#[kani::proof] #[kani::unwind(6)] fn k_reader_event_kind1_away() { reader_contract::<1, false>(); }
+//# id=K.reader.event.entity_u32.at props=C03,C04 strength=complete shape="loop-free; data entity holds entity_u32; tracker names the data entity; flag/payload/target symbolic" tier=quick fns=BroadcastEvent::try_read,BroadcastEvent::is_empty,EntityEvent::try_read,EntityEvent::get_entity,EntityEvent::is_empty
+#[kani::proof] #[kani::unwind(6)] fn k_reader_event_kind2_at() { reader_contract::<2, true>(); }
+//# id=K.reader.event.entity_u32.away props=C03,C04 strength=complete shape="loop-free; data entity holds entity_u32; tracker names another entity; flag/payload/target symbolic" tier=quick fns=BroadcastEvent::try_read,BroadcastEvent::is_empty,EntityEvent::try_read,EntityEvent::get_entity,EntityEvent::is_empty
+#[kani::proof] #[kani::unwind(6)] fn k_reader_event_kind2_away() { reader_contract::<2, false>(); }
+//# id=K.reader.event.entity_u16.at props=C03,C04 strength=complete shape="loop-free; data entity holds entity_u16; tracker names the data entity; flag/payload/target symbolic" tier=quick fns=BroadcastEvent::try_read,BroadcastEvent::is_empty,EntityEvent::try_read,EntityEvent::get_entity,EntityEvent::is_empty
+#[kani::proof] #[kani::unwind(6)] fn k_reader_event_kind3_at() { reader_contract::<3, true>(); }
+//# id=K.reader.event.entity_u16.away props=C03,C04 strength=complete shape="loop-free; data entity holds entity_u16; tracker names another entity; flag/payload/target symbolic" tier=quick fns=BroadcastEvent::try_read,BroadcastEvent::is_empty,EntityEvent::try_read,EntityEvent::get_entity,EntityEvent::is_empty
+#[kani::proof] #[kani::unwind(6)] fn k_reader_event_kind3_away() { reader_contract::<3, false>(); }
+//# id=K.reader.event.no_data.at props=C03,C04 strength=complete shape="loop-free; data entity holds no_data; tracker names the data entity; flag/payload/target symbolic" tier=quick fns=BroadcastEvent::try_read,BroadcastEvent::is_empty,EntityEvent::try_read,EntityEvent::get_entity,EntityEvent::is_empty
+#[kani::proof] #[kani::unwind(6)] fn k_reader_event_kind4_at() { reader_contract::<4, true>(); }
+//# id=K.reader.event.no_data.away props=C03,C04 strength=complete shape="loop-free; data entity holds no_data; tracker names another entity; flag/payload/target symbolic" tier=quick fns=BroadcastEvent::try_read,BroadcastEvent::is_empty,EntityEvent::try_read,EntityEvent::get_entity,EntityEvent::is_empty
+#[kani::proof] #[kani::unwind(6)] fn k_reader_event_kind4_away() { reader_contract::<4, false>(); }
